@@ -119,7 +119,7 @@ fn response(tr: &mut Tr, rng: &mut Rng, thorough: bool) {
         let tc = critical_t(&fu);
         if !is_fmt && tc.is_none() { tr.ev(json!({"ev":"Skip","functional":fu.name,"system":"response","why":"no critical point"})); continue; }
         let sigma = if is_fmt { 1.0 } else if fu.name == "Pets" { 3.4 } else { 3.6 };
-        let ncases = if thorough { 14 } else { 3 };
+        let ncases = if thorough { 14 } else { 5 };
         // debugging aid: C19_CASE="functional:geometry:potential:size:Tr:frac:points" runs exactly that case
         let dbg: Option<Vec<String>> = std::env::var("C19_CASE").ok().map(|s| s.split(':').map(|x| x.to_owned()).collect());
         if let Some(d) = &dbg { if d[0] != fu.name { continue; } }
